@@ -557,6 +557,15 @@ Theorem C02_strip_is_identity_on_looked_at_keys :
 Proof. exact DiffStrip.strip_id. Qed.
 Print Assumptions C02_strip_is_identity_on_looked_at_keys.
 
+(* the threshold guard of the copy clause is necessary: threshold_to_diff_deeper = 3/2 (outside the documented range,
+   accepted by DeepDiff unchecked; replayed on the implementation by c02.py) reports {'a':1,'b':2} as changed against itself *)
+Theorem C02_copy_empty_refuted_threshold :
+  wf DiffStrip.thr_d = true /\
+  length (fst (run_diff inj_hash (fun _ _ => []) one_block (fun _ => false) (fun _ => false) (mkCfg false 3 2 true) DiffStrip.thr_d DiffStrip.thr_d)) = 1 /\
+  fst (run_diff inj_hash (fun _ _ => []) one_block (fun _ => false) (fun _ => false) (mkCfg false 1 1 true) DiffStrip.thr_d DiffStrip.thr_d) = [].
+Proof. exact DiffStrip.copy_empty_refuted_threshold. Qed.
+Print Assumptions C02_copy_empty_refuted_threshold.
+
 (* ---- "in every view, verbosity >= 1" over the extended universe (Diff/XuTextEmpty.v), every printer oracle ---- *)
 From DD Require Diff.XuTextView Diff.XuTextEmpty.
 
@@ -579,3 +588,19 @@ Theorem C02x_empty_sound_text_unguarded :
     XuValue.py_eqv (XuEmptyNorm.normL t1) (XuEmptyNorm.normL t2) = true.
 Proof. exact XuTextEmpty.text_empty_sound_norm. Qed.
 Print Assumptions C02x_empty_sound_text_unguarded.
+
+
+(* ... and with Diff/XuStrip.v (hidden keys removed, as C02_empty_sound_all_keys) ONLY the set-member guard is left over
+   the extended universe: no key guard, no datetime-kind guard *)
+From DD Require Diff.XuStrip.
+
+Theorem C02x_empty_sound_only_set_member_guard :
+  forall hatom udiff ops excl c ok (t1 t2 : XuValue.value),
+    (forall a b, ok a = true -> ok b = true -> hatom a = hatom b -> XuValue.py_eq a b = true) -> XuEmpty.valid_ops ops ->
+    XuValue.wf t1 = true -> XuValue.wf t2 = true ->
+    XuEmpty.inputs_ok XuEmpty.any_atom ok XuEmpty.any_atom t1 = true ->
+    XuEmpty.inputs_ok XuEmpty.any_atom ok XuEmpty.any_atom t2 = true ->
+    fst (XuModel.run_diff hatom udiff ops (fun _ => false) excl c t1 t2) = [] ->
+    XuValue.py_eqv (XuEmptyNorm.normL (XuStrip.strip c t1)) (XuEmptyNorm.normL (XuStrip.strip c t2)) = true.
+Proof. intros. eapply XuStrip.run_empty_sound_all_keys_norm; eassumption. Qed.
+Print Assumptions C02x_empty_sound_only_set_member_guard.
